@@ -7,6 +7,7 @@ import (
 	"runtime/debug"
 	"sort"
 	"strings"
+	"sync"
 
 	"perkeep.org/pkg/blob"
 	"perkeep.org/pkg/blobserver"
@@ -32,7 +33,8 @@ type world struct {
 	crashed bool // a call was refused
 	quiet   bool // harness observation in progress: hooks are transparent
 	labels  []string
-	refused string // label of the first refused call
+	refused string     // label of the first refused call
+	mu      sync.Mutex // guards the numbering below (hooks may run on several goroutines)
 	// runaway guard: zips stored by the current client operation
 	largeInOp int
 	runaway   bool
@@ -45,6 +47,8 @@ var errFrozen = errors.New("verif: device frozen (crash point reached)")
 
 var theWorld *world
 
+var origStderr *os.File
+
 func getWorld() *world {
 	if theWorld != nil {
 		return theWorld
@@ -54,6 +58,7 @@ func getWorld() *world {
 	if os.Getenv("VERIF_VERBOSE") == "" {
 		// blobpacked logs every pack through its own logger on os.Stderr
 		if dn, err := os.OpenFile(os.DevNull, os.O_WRONLY, 0); err == nil {
+			origStderr = os.Stderr // keep it reachable: its finalizer would close fd 2 and swallow panic traces
 			os.Stderr = dn
 		}
 	}
@@ -114,11 +119,18 @@ func (w *world) kvHook(kv, op, key string) error {
 	return nil
 }
 
+// mutating numbers one lower-layer write. RemoveBlobs of a packed blob writes
+// to small and to meta from two goroutines, so the numbering is under a lock
+// (which of the two comes first is the scheduler's choice; both orders are
+// legal crash states).
 func (w *world) mutating(label string) error {
+	w.mu.Lock()
 	if w.runaway && !w.quiet {
+		w.mu.Unlock()
 		return errFrozen // stop a pack that does not terminate: refuse every write
 	}
 	if w.quiet || !w.armed {
+		w.mu.Unlock()
 		return nil
 	}
 	k := w.n
@@ -128,12 +140,15 @@ func (w *world) mutating(label string) error {
 			w.refused = label
 		}
 		w.crashed = true
+		w.mu.Unlock()
 		return errFrozen
 	}
 	w.labels = append(w.labels, label)
-	if w.observe != nil {
+	observe := w.observe
+	w.mu.Unlock()
+	if observe != nil {
 		w.quiet = true
-		w.observe(k, label)
+		observe(k, label)
 		w.quiet = false
 	}
 	return nil
